@@ -197,6 +197,7 @@ class Run:
         sub.ignore_string_members = self.ignore_string_members
         sub.recs = self.recs
         sub.listsinks, sub.dicts = self.listsinks, self.dicts
+        sub.objlen, sub.strobjs, sub.strcap = self.objlen, self.strobjs, self.strcap       # same object: same modelled members
         self.bind_args(sub, g, fn, args)
         return sub.run()
 
